@@ -82,6 +82,11 @@ def gen_c01(rnd, n, thorough=False):
                 tags['ops']['jump'] = tags['ops'].get('jump', 0) + 1
             _observe(rnd, lines, layout, list(range(0, a + 1)), now, nwin=3)
         cases.append({'id': 'c01-%d' % c, 'lines': lines, 'tags': tags})
+    # a handle whose Open had to wait for another handle: it shows what that handle left (every slot, also those
+    # on the page that holds the header)
+    from gens_concur_lines import waitopen_lines
+    for j in range(2):
+        cases.append({'id': 'c01-waitopen-%d' % j, 'lines': waitopen_lines(rnd), 'tags': {'layout': 'multipage-single', 'levels': 1, 'target': 0, 'ops': {'waiting_opener': 1}}})
     # dense batches that run over the end of the ring exactly at (and next to) a multiple of a chunk of slots
     # (a page of 4096 bytes holds 341 slots and a bit; other plausible chunk sizes): every point lands in its slot
     for j, chunk in enumerate([341, rnd.pick([170, 256, 512, 682, 1024, 1365])]):
@@ -177,9 +182,28 @@ def gen_c02(rnd, n, thorough=False):
                     lines.append("upd f %d %d %016x %d" % (rnd.pick([-1, 0]), t, v, now))
                     tags['ops']['resend'] = tags['ops'].get('resend', 0) + 1
             else:
-                shape = rnd.pick(['dense', 'sparse', 'dups', 'lap', 'exact_k', 'exact_k'])
+                shape = rnd.pick(['dense', 'sparse', 'dups', 'lap', 'exact_k', 'exact_k'] + (['straddle3', 'straddle3'] if k >= 3 else []))
                 pts = []
-                if shape == 'dense':
+                if shape == 'straddle3':
+                    # one best-archive batch with points on both sides of the finest archive's retention edge that
+                    # lie under the same slot of the archive two levels up: that slot is recomputed from what the
+                    # middle archive holds after BOTH were written
+                    lv = rnd.randrange(k - 2)
+                    Ra, Rb, Sc = layout[lv][0] * layout[lv][1], layout[lv + 1][0] * layout[lv + 1][1], layout[lv + 2][0]
+                    Rprev = layout[lv - 1][0] * layout[lv - 1][1] if lv > 0 else 0
+                    edge = now - Ra
+                    x = edge % Sc
+                    dmax, emax = min(x, Rb - Ra - 1), min(Sc - x - 2, Ra - Rprev - 1)
+                    if dmax >= 0 and emax >= 0:
+                        for _j in range(rnd.randint(1, 3)):
+                            pts.append((edge - rnd.randint(0, dmax), value(rnd, nan_ok)))          # too old for archive lv
+                        for _j in range(rnd.randint(1, 3)):
+                            pts.append((edge + 1 + rnd.randint(0, emax), value(rnd, nan_ok)))      # still inside archive lv
+                    else:
+                        shape = 'sparse'
+                if shape == 'straddle3':
+                    pass
+                elif shape == 'dense':
                     span = rnd.randint(1, N0)
                     pts = [(now - j * S0, value(rnd, nan_ok)) for j in range(span)]
                 elif shape == 'sparse':
@@ -202,7 +226,7 @@ def gen_c02(rnd, n, thorough=False):
                     if rnd.chance(0.5):
                         pts.append((now - rnd.randint(0, R0 - 1), value(rnd, nan_ok)))
                 rnd.shuffle(pts)
-                lines.append(_many('f', rnd.pick([-1, 0]), now, pts))
+                lines.append(_many('f', -1 if shape == 'straddle3' else rnd.pick([-1, 0]), now, pts))
                 sent += pts[-2:]
                 tags['ops'][shape] = tags['ops'].get(shape, 0) + 1
             _observe(rnd, lines, layout, list(range(k)), now, nwin=2)
